@@ -26,10 +26,12 @@
 (*          C1 controls x80-x9f (but x85), uFFFE, uFFFF, surrogates        *)
 (*                                                                         *)
 (* Layers:                                                                 *)
-(*   Ref   StrRoundTrip, NumberTextResolves: the laws C01 needs.           *)
+(*   Ref   StrRoundTrip, JsonStrRoundTrip, Yaml/JsonFloatRoundTrip,        *)
+(*         IntRoundTrip: the laws C01 needs.                               *)
 (*   Alg   Resolve / DumperTag / LoaderTag / PlainAllowed / YamlWriteStr / *)
 (*         ReadPlain / LoadBasic / LoadValue, transcribed with anchors.    *)
-(*   Named deviations (Deviation, JsonDeviation): the families of texts on *)
+(*   Named deviations (Deviation, JsonStrDeviation, JsonKeyDeviation,      *)
+(*   JsonDeviation): the families of texts on                              *)
 (*   which the pinned code is KNOWN to break the law; every other failing  *)
 (*   text still violates StrRoundTripModuloKnown.                          *)
 (***************************************************************************)
@@ -57,8 +59,8 @@ Lower(c) == CASE c = "E" -> "e" [] c = "I" -> "i" [] c = "N" -> "n" [] c = "F" -
 
 (***************************************************************************)
 (* A small regular-expression engine.  Regexes are DATA, so that the       *)
-(* resolver tables below are terms that the harness can also export and    *)
-(* compare with the compiled patterns of the real classes.                 *)
+(* resolver tables below are terms on which the loader's table can be      *)
+(* built with the very operations of the code (remove, remove, add).       *)
 (*   Ends(r, t, i) = the set of positions j such that r matches t[i..j-1]  *)
 (***************************************************************************)
 Cls(S)   == [k |-> "cls",  s |-> S,  a |-> << >>]
@@ -68,8 +70,8 @@ Star(r)  == [k |-> "star", s |-> {}, a |-> <<r>>]
 Plus(r)  == [k |-> "plus", s |-> {}, a |-> <<r>>]
 Opt(r)   == [k |-> "opt",  s |-> {}, a |-> <<r>>]
 Ch(c)    == Cls({c})
-Lit(t)   == Cat([i \in 1..Len(t) |-> Ch(t[i])])                  \* a literal word
-Words(ws) == Alt([i \in 1..Len(ws) |-> Lit(ws[i])])              \* w1|w2|...
+Lit(t)   == Cat(Strict([i \in 1..Len(t) |-> Ch(t[i])]))          \* a literal word
+Words(ws) == Alt(Strict([i \in 1..Len(ws) |-> Lit(ws[i])]))      \* w1|w2|...
 
 RECURSIVE Ends(_, _, _), CatEnds(_, _, _, _), StarEnds(_, _, _, _)
 Ends(r, t, i) ==
@@ -185,7 +187,7 @@ LoaderTag(t) == Resolve(LoaderResolvers, t)      \* what jsonargparse's loader r
 (* default_flow_style=False, so every scalar of a non-empty collection is  *)
 (* written in block context.                                               *)
 (***************************************************************************)
-WS      == {"NUL", " ", "TAB", "CR", "LF", "NEL", "LS", "PS"}          \* '\0 \t\r\n\x85  '
+WS      == {"NUL", " ", "TAB", "CR", "LF", "NEL", "LS", "PS"}          \* '\0 \t\r\n\x85\u2028\u2029'
 Breaks  == {"LF", "NEL", "LS", "PS"}
 Special == {"TAB", "CR", "NUL", "BOM", "CTL", "CSP", "NPR"}             \* neither printable ASCII, '\n', nor allowed unicode (:699-707)
 LeadInd == {"#", ",", "[", "]", "{", "}", "&", "*", "!", "|", ">", "'", "\"", "%", "@", "`"}
